@@ -652,8 +652,8 @@ def makerandCIJdegreesfixed(inv, outv, seed=None):
 
     n = len(inv)
     k = np.sum(inv)
-    in_inv = np.zeros((k,))
-    out_inv = np.zeros((k,))
+    in_inv = np.zeros((k,), dtype=int)
+    out_inv = np.zeros((k,), dtype=int)
     i_in = 0
     i_out = 0
 
